@@ -58,6 +58,9 @@ func stdioLine(kind string, i int) (text string, end string, msg interface{}, qu
 		text = mk(map[string]interface{}{"to": "b", "trail": trail, "n": 1}, 0)
 	case kind == "all":
 		text = mk(map[string]interface{}{"trail": trail, "n": 1}, 0)
+	case kind == "poison":
+		// a message to all that leaves machine p with a binding no store can hold (the round's report then fails)
+		text = mk(map[string]interface{}{"trail": trail, "n": 1, "poison": true}, 0)
 	case kind == "list":
 		text = mk(map[string]interface{}{"to": []interface{}{"b", "a", "zz"}, "trail": trail, "n": 0}, 0)
 	case strings.HasPrefix(kind, "len="):
@@ -103,8 +106,21 @@ type stdioObs struct {
 	err      string
 }
 
+// stdioPoisonSpec: a recorder that, asked to, binds a value that cannot be serialised.
+func stdioPoisonSpec() *core.Spec {
+	return &core.Spec{Name: "poisonable", Nodes: map[string]*core.Node{
+		"start": {Branches: &core.Branches{Type: "message", Branches: []*core.Branch{{Pattern: "?m", Target: "rec"}}}},
+		"rec": {ActionSource: &core.ActionSource{Interpreter: "ecmascript", Source: `var m = _.bindings["?m"]; var log = _.bindings.log || []; log.push((m && m.trail) ? m.trail : "?");
+if (m && m.poison) { return {log: log, bad: parseFloat("n/a")}; } return {log: log};`},
+			Branches: &core.Branches{Branches: []*core.Branch{{Target: "start"}}}},
+	}}
+}
+
 func stdioCrewSetup(c *Crew) error {
 	ctx := context.Background()
+	if err := c.SetMachine(ctx, "p", &crew.SpecSource{Inline: stdioPoisonSpec()}, &core.State{NodeName: "start", Bs: map[string]interface{}{}}); err != nil {
+		return err
+	}
 	for _, m := range []recMachine{{Id: "a", Mode: "unrouted"}, {Id: "b", Mode: "routed", Target: "a"}} {
 		st := &core.State{NodeName: "start", Bs: map[string]interface{}{"mode": m.Mode, "target": m.Target}}
 		if err := c.SetMachine(ctx, m.Id, &crew.SpecSource{Inline: recorderSpec()}, st); err != nil {
@@ -116,7 +132,7 @@ func stdioCrewSetup(c *Crew) error {
 
 func stdioLogs(c *Crew) map[string][]string {
 	logs := map[string][]string{}
-	for _, id := range []string{"a", "b", "c"} {
+	for _, id := range []string{"a", "b", "c", "p"} {
 		if mm := c.Machines[id]; mm != nil && mm.State != nil {
 			if l, ok := mm.State.Bs["log"].([]interface{}); ok {
 				for _, x := range l {
@@ -373,7 +389,7 @@ func stdioJudge(cs stdioCase) [][2]string {
 	if got.err != "" {
 		out = append(out, [2]string{"input-stalled", fmt.Sprintf("lines %v: %s", cs.Lines, got.err)})
 	}
-	for _, id := range []string{"a", "b", "c"} {
+	for _, id := range []string{"a", "b", "c", "p"} {
 		g, w := got.logs[id], want.logs[id]
 		if strings.Join(g, ",") != strings.Join(w, ",") {
 			kind := "wrong-deliveries"
@@ -402,7 +418,7 @@ func C14stdio(c *vh.Ctx) {
 		}
 		return
 	}
-	kinds := []string{"toA", "toB", "all", "list", "len=4095", "len=4096", "len=4097", "len=8193", "len=65535", "len=65536", "len=65537", "len=300000",
+	kinds := []string{"toA", "toB", "all", "poison", "list", "len=4095", "len=4096", "len=4097", "len=8193", "len=65535", "len=65536", "len=65537", "len=300000",
 		"crlf", "indent", "nonmap", "comment", "blank", "junk", "quit", "quitsp", "mk", "mkbig"}
 	if !c.Quick() {
 		kinds = append(kinds, "len=4094", "len=8192", "len=65534", "len=131072", "len=1048577")
@@ -410,7 +426,7 @@ func C14stdio(c *vh.Ctx) {
 	maxLen := c.Pick(2, 3)
 	c.Bound("stdio_line_kinds", len(kinds))
 	c.Bound("stdio_lines_max", maxLen)
-	c.Rule("sio host as it is run: every sequence of input lines up to the bound over the line kinds (messages to one machine / to all / to a list, lines whose length sits at and around the reader's buffer sizes (4 kB, 8 kB, 64 kB) and far beyond, CRLF line ends, indented lines, a non-map message, comments, blank lines, junk, quit, captain messages that create a machine from a small / a 78 kB inline specification) is written to the input of a real sio.Stdio and processed by the real Crew.Loop; per machine the sequence of received messages and the multiset of emitted messages Stdio prints must equal those of the same messages handed to Crew.ProcessMsg directly.")
+	c.Rule("sio host as it is run: every sequence of input lines up to the bound over the line kinds (messages to one machine / to all / to a list, a message to all that leaves one machine with a binding no store can hold (the crew's report for that round fails), lines whose length sits at and around the reader's buffer sizes (4 kB, 8 kB, 64 kB) and far beyond, CRLF line ends, indented lines, a non-map message, comments, blank lines, junk, quit, captain messages that create a machine from a small / a 78 kB inline specification) is written to the input of a real sio.Stdio and processed by the real Crew.Loop; per machine the sequence of received messages and the multiset of emitted messages Stdio prints must equal those of the same messages handed to Crew.ProcessMsg directly.")
 	var idx uint64
 	reported := map[string]bool{}
 	var rec func(cur []string)
